@@ -35,6 +35,7 @@ def fmtErr08 : PErr → String
   | .fuel => "fuel"
   | .txNotFound => "err tx-not-found"
   | .nodeMissing => "err node-missing"
+  | .tooMany => "err too-many"
 
 def allSome : List (Option (List UInt8)) → Option (List (List UInt8))
   | [] => some []
@@ -50,6 +51,9 @@ def buildBlock (txs : List (List UInt8)) (matched : List Bool) :
   match allSome hs, calcHash hashPair08 txs (treeDepth n) 0 with
   | some hs, some root => some (root, packFlags (bits.length + 1) bits, hs)
   | _, _ => none
+
+/-- `pact.MaxTxPerBlock` (default; the boundary ops 10000 / 10001 tie it to the code) -/
+def maxTx : Nat := 10000
 
 def fuelFor (n hashes : Nat) : Nat := 8 * n + 4 * hashes + 64
 
@@ -75,12 +79,12 @@ def stepC08 : List String → String
   | "check" :: n :: root :: flags :: hashes :: _ =>
     match nat? n, hexBytes? root, hexBytes? flags, parseHashes08 hashes with
     | some n, some root, some flags, some hs =>
-      fmtCheck (machine (goOps n) hashPair08 n root (unpackFlags flags) hs (fuelFor n hs.length))
+      fmtCheck (machine (goOps n) hashPair08 maxTx n root (unpackFlags flags) hs (fuelFor n hs.length))
     | _, _, _, _ => "bad-op"
   | "spec" :: n :: root :: flags :: hashes :: _ =>   -- the recursive specification, same output format
     match nat? n, hexBytes? root, hexBytes? flags, parseHashes08 hashes with
     | some n, some root, some flags, some hs =>
-      match extractTop hashPair08 n root (unpackFlags flags) hs with
+      match extractTop hashPair08 maxTx n root (unpackFlags flags) hs with
       | .ok (ids, _) => "ok " ++ catHex ids
       | .err e => fmtErr08 e
       | .panic => "panic"
@@ -88,15 +92,23 @@ def stepC08 : List String → String
   | "branch" :: n :: root :: flags :: hashes :: txid :: _ =>
     match nat? n, hexBytes? root, hexBytes? flags, parseHashes08 hashes, hexBytes? txid with
     | some n, some root, some flags, some hs, some txid =>
-      fmtBranch (branchOf hashPair08 n root (unpackFlags flags) hs txid (fuelFor n hs.length))
+      fmtBranch (branchOf hashPair08 maxTx n root (unpackFlags flags) hs txid (fuelFor n hs.length))
     | _, _, _, _, _ => "bad-op"
+  | ["nmb", _raws, _elements, _tweak, _ppm, _added, txs, m] =>
+    match parseHashes08 txs, parseBits m with
+    | some txs, some m =>
+      if txs.length ≠ m.length ∨ txs.isEmpty then "bad-op" else
+      match buildBlock txs m with
+      | some (_, flags, hs) => s!"{txs.length} {toHex flags} {catHex hs}"
+      | none => "panic"
+    | _, _ => "bad-op"
   | ["roundtrip", txs, m] =>
     match parseHashes08 txs, parseBits m with
     | some txs, some m =>
       if txs.length ≠ m.length ∨ txs.isEmpty then "bad-op" else
       match buildBlock txs m with
       | some (root, flags, hs) =>
-        fmtCheck (machine (goOps txs.length) hashPair08 txs.length root (unpackFlags flags) hs (fuelFor txs.length hs.length))
+        fmtCheck (machine (goOps txs.length) hashPair08 maxTx txs.length root (unpackFlags flags) hs (fuelFor txs.length hs.length))
       | none => "panic"
     | _, _ => "bad-op"
   | ["branchrt", txs, m, i] =>
@@ -105,7 +117,7 @@ def stepC08 : List String → String
       if txs.length ≠ m.length ∨ txs.isEmpty then "bad-op" else
       match buildBlock txs m, txs[i]? with
       | some (root, flags, hs), some txid =>
-        fmtBranch (branchOf hashPair08 txs.length root (unpackFlags flags) hs txid (fuelFor txs.length hs.length))
+        fmtBranch (branchOf hashPair08 maxTx txs.length root (unpackFlags flags) hs txid (fuelFor txs.length hs.length))
       | _, _ => "panic"
     | _, _, _ => "bad-op"
   | _ => "bad-op"
